@@ -548,6 +548,24 @@ func refTiingo(doc []byte) []asset.Snapshot {
 	return out
 }
 
+// c19Day is convertible to time.Time but is not time.Time.
+type c19Day time.Time
+
+// unsupportedRead reads doc with and without a header row into T and returns
+// the number of rows delivered (whatever they hold).
+func unsupportedRead[T any](doc string) int {
+	n := 0
+	for _, hdr := range []bool{true, false} {
+		c, err := helper.NewCsv[T](hdr)
+		if err != nil {
+			continue
+		}
+		c.Logger = discardLogger
+		n += len(helper.ChanToSlice(c.ReadFromReader(strings.NewReader(doc))))
+	}
+	return n
+}
+
 var logCountSeq atomic.Int64
 
 func tiingoCase(cc *run.Case, census *mon.Census, status int, body []byte) bool {
@@ -729,6 +747,37 @@ func c19(ctx *run.Ctx) {
 			}
 		}
 	}
+	// Row types with a field the codec does not support (a named type built on
+	// time.Time, a nested struct, a pointer, a slice): reading well-formed text
+	// into them may fail or deliver nothing, it must not panic, hang or leak.
+	ctx.Case("csv/unsupported-fields", func(cc *run.Case) {
+		doc := "A,D,N\nx,2024-03-05,7\ny,2024-03-06,8\n"
+		census.Begin()
+		n := unsupportedRead[struct {
+			A string
+			D c19Day `format:"2006-01-02"`
+			N int
+		}](doc) + unsupportedRead[struct {
+			A string
+			D struct{ Y, M int }
+			N int
+		}](doc) + unsupportedRead[struct {
+			A string
+			D *string
+			N int
+		}](doc) + unsupportedRead[struct {
+			A string
+			D []string
+			N int
+		}](doc)
+		cc.Count("unsupported_field_reads", 8)
+		cc.Count("rows_delivered", int64(n))
+		if lk := census.End(); lk != nil && !lk.Unsettled {
+			cc.Viol("", fmt.Sprintf("reading into a row type with an unsupported field left %d goroutine(s) behind: %s", lk.Count, mon.LeakSite(lk.Stacks[0])), nil)
+			return
+		}
+		cc.Distinct("csv/unsupported-fields")
+	})
 	// file-level faults
 	ctx.Case("files", func(cc *run.Case) {
 		if _, err := helper.ReadFromCsvFile[shape2](filepath.Join(dir, "does-not-exist.csv"), true); err == nil {
